@@ -17,7 +17,7 @@ def identity_presentation(spec):
             'edge_order': [list(range(len(r['edges']))) for r in spec['rules']],
             'ids': 'spec', 'rename_nl': {}, 'rename_el': {}, 'rename_val': {}, 'dom_perm': {},
             'domain_order': sorted(spec['domains']), 'factor_order': sorted(spec['terms']),
-            'ext_first': False, 'via': 'api', 'label_prereg': []}
+            'ext_first': False, 'via': 'api', 'label_prereg': [], 'late_start': False}
 
 
 def random_presentation(spec, g, allow_rename=True, allow_domperm=True, via=('api', 'api', 'json')):
@@ -47,6 +47,8 @@ def random_presentation(spec, g, allow_rename=True, allow_domperm=True, via=('ap
         names = list(spec['nts']) + list(spec['terms'])
         g.shuffle(names)
         p['label_prereg'] = names[:g.randrange(len(names) + 1)]
+    # the start symbol is assigned last (so it is not the first-registered nonterminal)
+    p['late_start'] = len(spec['nts']) >= 2 and g.random() < 0.3
     return p
 
 
@@ -86,7 +88,11 @@ def build(spec, pres=None, interp=True, weights_transform=None, dtype=None, requ
     for n, t in spec['nts'].items():
         labels[n] = F.EdgeLabel(rn_el(n), [nls[x] for x in t['type']], is_nonterminal=True)
     B.labels = labels
-    g = (F.FGG if interp else F.HRG)(labels[spec['start']])
+    if pres.get('late_start'):
+        other = [n for n in spec['nts'] if n != spec['start']]
+        g = (F.FGG if interp else F.HRG)(labels[other[0]] if other else labels[spec['start']])
+    else:
+        g = (F.FGG if interp else F.HRG)(labels[spec['start']])
     for n in pres.get('label_prereg', []):
         g.add_edge_label(labels[n])
     for ri in pres['rule_order']:
@@ -137,6 +143,8 @@ def build(spec, pres=None, interp=True, weights_transform=None, dtype=None, requ
         g.add_edge_label(labels[n])
     for n in spec['terms']:
         g.add_edge_label(labels[n])
+    if pres.get('late_start'):
+        g.start = labels[spec['start']]
     if interp:
         dt = dtype or torch.get_default_dtype()
         doms = {}
